@@ -1,6 +1,7 @@
 package server
 
 import (
+	"errors"
 	"math"
 	"os"
 	"strconv"
@@ -86,6 +87,10 @@ func shrinkGeoArgs(g geojson.Object) []string {
 	return []string{"object", string(g.AppendJSON(nil))}
 }
 
+// errShrinkReset: a follower dropped its dataset to resync with the leader
+// while the rewrite was running; the rewritten file holds data from before.
+var errShrinkReset = errors.New("the dataset was reset while the rewrite was running")
+
 func (s *Server) aofshrink() {
 	start := time.Now()
 	s.mu.Lock()
@@ -95,6 +100,7 @@ func (s *Server) aofshrink() {
 	}
 	s.shrinking = true
 	s.shrinklog = nil
+	s.shrinkrst = false
 	s.mu.Unlock()
 
 	defer func() {
@@ -303,6 +309,9 @@ func (s *Server) aofshrink() {
 			defer s.mu.Unlock()
 
 			s.verifShrinkCrash("final-locked")
+			if s.shrinkrst {
+				return errShrinkReset
+			}
 			// kill all followers connections and close their files. This
 			// ensures that there is only one opened AOF at a time which is
 			// what Windows requires in order to perform the Rename function
